@@ -253,6 +253,9 @@ func runC10(o Opts) error {
 	s.Extra["datagrams_sent"] = total
 	s.Extra["sessions_on_one_port"] = sessions + bursts
 	s.Extra["burst_sessions"] = 2 * bursts
+	if s.ReplayWants("listen-shutdown") {
+		listenStopChild(s)
+	}
 	return s.Close()
 }
 
